@@ -137,9 +137,9 @@ fn mk_arrayvec<const N: usize>(mem: &[u8], len: usize) -> BV {
 }
 
 macro_rules! dispatch_n {
-    ($n:expr, $f:ident, ($($a:expr),*), [$($k:literal),*]) => {
+    ($n:expr, $f:ident, $args:tt, [$($k:literal),*]) => {
         match $n {
-            $($k => Some($f::<$k>($($a),*)),)*
+            $($k => Some($f::<$k> $args),)*
             _ => None,
         }
     };
@@ -228,7 +228,7 @@ pub struct RootInfo {
 
 impl RootInfo {
     pub fn of(v: &mut BV) -> Self {
-        let u = v.as_uninit();
+        let u = (*v).as_uninit();
         RootInfo { ptr: u.as_ptr() as *const u8, cap: u.len() }
     }
 
@@ -244,16 +244,16 @@ impl RootInfo {
 
 pub fn observe(v: &mut BV, ri: &RootInfo) -> Obs {
     let init = catch(|| {
-        let s = v.as_init();
+        let s = (*v).as_init();
         (ri.off(s.as_ptr()), s.len())
     })
     .map_err(|_| ());
     let uninit = catch(|| {
-        let s = v.as_uninit();
+        let s = (*v).as_uninit();
         (ri.off(s.as_ptr() as *const u8), s.len())
     })
     .map_err(|_| ());
-    Obs { init, uninit, root_len: v.root_len(), mem: ri.mem() }
+    Obs { init, uninit, root_len: (*v).root_len(), mem: ri.mem() }
 }
 
 fn show_range(r: &Result<(usize, usize), ()>) -> String {
@@ -356,7 +356,7 @@ impl Machine {
     fn state_line(&mut self, ex: &mut Exec, ctx: &str) -> String {
         let St::Buf(v) = &mut self.st else { unreachable!() };
         let o = observe(v, &self.ri);
-        let reused = v.reused_uninit();
+        let reused = (*v).reused_uninit();
         monitor_state(ex, &o, self.ri.cap, reused, ctx);
         show_obs(&o)
     }
@@ -364,7 +364,7 @@ impl Machine {
     /// a constructor (`slice`, `uninit`, `flat`, `peel`, `reader`): consumes the buffer
     fn ctor(&mut self, ex: &mut Exec, line: &str, in_range: bool, f: impl FnOnce(BV) -> BV) -> String {
         let St::Buf(v) = std::mem::replace(&mut self.st, St::Dead) else { unreachable!() };
-        let reused = v.reused_uninit();
+        let reused = (*v).reused_uninit();
         match catch(move || f(v)) {
             Ok(nv) => {
                 self.st = St::Buf(nv);
@@ -415,10 +415,10 @@ impl Machine {
                     while v.depth() > 0 {
                         v = v.peel();
                     }
-                    let len = v.root_len();
+                    let len = (*v).root_len();
                     let mem = self.ri.mem();
                     // the root is where it was: its own pointer still equals the recorded one
-                    let p = v.as_uninit().as_ptr() as *const u8;
+                    let p = (*v).as_uninit().as_ptr() as *const u8;
                     if p != self.ri.ptr {
                         ex.fail("C10:bounds", format!("root allocation moved"));
                     }
@@ -475,7 +475,7 @@ impl Machine {
             ["slice", b, e] => {
                 let (Ok(b), Some(e)) = (b.parse::<usize>(), parse_end(e)) else { return "bad-op".into() };
                 let St::Buf(v) = &mut self.st else { unreachable!() };
-                let in_range = catch(|| v.buf_len()).map(|l| b <= l).unwrap_or(false) && e.map(|e| b <= e).unwrap_or(true);
+                let in_range = catch(|| (*v).buf_len()).map(|l| b <= l).unwrap_or(false) && e.map(|e| b <= e).unwrap_or(true);
                 ex.tag(if in_range { "slice" } else { "slice-out-of-range" });
                 self.ctor(ex, line, in_range, move |v| Box::new(v.slice(range_of(b, e))))
             }
@@ -497,20 +497,24 @@ impl Machine {
                     let ni = catch(|| {
                         let s = nested.as_init();
                         (ri.off(s.as_ptr()), s.len())
-                    });
+                    })
+                    .map_err(|_| ());
                     let nu = catch(|| {
                         let s = nested.as_uninit();
                         (ri.off(s.as_ptr() as *const u8), s.len())
-                    });
+                    })
+                    .map_err(|_| ());
                     let mut flat = nested.flatten();
                     let fi = catch(|| {
                         let s = flat.as_init();
                         (ri.off(s.as_ptr()), s.len())
-                    });
+                    })
+                    .map_err(|_| ());
                     let fu = catch(|| {
                         let s = flat.as_uninit();
                         (ri.off(s.as_ptr() as *const u8), s.len())
-                    });
+                    })
+                    .map_err(|_| ());
                     if ni != fi || nu != fu {
                         *dis = Some(format!("nested i={ni:?} u={nu:?} flattened i={fi:?} u={fu:?}"));
                     }
@@ -548,7 +552,7 @@ impl Machine {
                 let k = data.len();
                 let St::Buf(v) = &mut self.st else { unreachable!() };
                 let before = observe(v, &self.ri);
-                let reused_before = v.reused_uninit();
+                let reused_before = (*v).reused_uninit();
                 let Ok((ou, lu)) = before.uninit else { return "panic".into() };
                 if before.init.is_err() {
                     return "panic".into();
@@ -559,12 +563,12 @@ impl Machine {
                 }
                 // what a driver does: store through the as_uninit pointer, then advance_to(k)
                 {
-                    let dst = v.as_uninit();
+                    let dst = (*v).as_uninit();
                     for (i, b) in data.iter().enumerate() {
                         dst[i].write(*b);
                     }
                 }
-                if let Err(_) = catch(|| unsafe { v.advance_to(k) }) {
+                if let Err(_) = catch(|| unsafe { (*v).advance_to(k) }) {
                     return "panic".into();
                 }
                 ex.tag(if k == 0 { "fill-0" } else { "fill" });
@@ -583,6 +587,7 @@ impl Machine {
                     bad.push(format!("root len shrank {} -> {}", before.root_len, after.root_len));
                 }
                 match after.init {
+                    _ if k == 0 => {}
                     Ok((oi, li)) if oi == ou && li >= k => {}
                     other => bad.push(format!("view as_init after the fill is {other:?}, expected to start at {ou} and cover {k}")),
                 }
@@ -598,22 +603,22 @@ impl Machine {
                 let St::Buf(v) = &mut self.st else { unreachable!() };
                 // `adv` needs buf_len first
                 let li = if w[0] == "adv" {
-                    match catch(|| v.buf_len()) {
+                    match catch(|| (*v).buf_len()) {
                         Ok(l) => l,
                         Err(_) => return "panic".into(),
                     }
                 } else {
                     0
                 };
-                let Ok(lu) = catch(|| v.as_uninit().len()) else { return "panic".into() };
+                let Ok(lu) = catch(|| (*v).as_uninit().len()) else { return "panic".into() };
                 if li + n > lu {
                     ex.tag("setlen-contract");
                     return "contract".into();
                 }
                 let r = match w[0] {
-                    "setlen" => catch(|| unsafe { v.set_len(n) }),
-                    "advto" => catch(|| unsafe { v.advance_to(n) }),
-                    _ => catch(|| unsafe { v.advance(n) }),
+                    "setlen" => catch(|| unsafe { (*v).set_len(n) }),
+                    "advto" => catch(|| unsafe { (*v).advance_to(n) }),
+                    _ => catch(|| unsafe { (*v).advance(n) }),
                 };
                 if r.is_err() {
                     return "panic".into();
@@ -623,7 +628,7 @@ impl Machine {
             }
             ["clear"] => {
                 let St::Buf(v) = &mut self.st else { unreachable!() };
-                if catch(|| v.clear()).is_err() {
+                if catch(|| (*v).clear()).is_err() {
                     return "panic".into();
                 }
                 ex.tag("clear");
@@ -634,7 +639,7 @@ impl Machine {
                 let k = data.len();
                 let St::Buf(v) = &mut self.st else { unreachable!() };
                 let before = observe(v, &self.ri);
-                let reused_before = v.reused_uninit();
+                let reused_before = (*v).reused_uninit();
                 let Ok((oi, li)) = before.init else { return "ext:panic".into() };
                 // would the real call reallocate a growable root? (allocator-dependent: not issued)
                 let growable = self.growable;
@@ -657,7 +662,7 @@ impl Machine {
                     (true, Ok((ou, _))) => *ou,
                     (false, _) => 0,
                 };
-                if reserve_ok && ou + li + k > cap {
+                if reserve_ok && k > 0 && ou + li + k > cap {
                     ex.tag("extend-oob");
                     ex.fail(
                         if reused_before { "F6:uninit-extend-oob" } else { "C10:extend-oob" },
@@ -670,11 +675,11 @@ impl Machine {
                     return "ext:ub".into();
                 }
                 let res: Result<bool, String> = if w[0] == "extend" {
-                    catch(|| v.extend_from_slice(&data).is_ok())
+                    catch(|| (*v).extend_from_slice(&data).is_ok())
                 } else {
                     // Writer::write on a by-reference writer (same code path as into_writer().write())
                     catch(|| {
-                        let mut wr = v.as_writer();
+                        let mut wr = (*v).as_writer();
                         match wr.write(&data) {
                             Ok(n) => {
                                 assert_eq!(n, k);
@@ -734,7 +739,7 @@ fn would_grow(v: &mut BV, k: usize, cap: usize, growable: bool) -> bool {
     if IoBufMut::reserve(&mut **v, 0).is_err() {
         return false;
     }
-    growable && k > cap - v.root_len()
+    growable && k > cap - (*v).root_len()
 }
 
 // ---------------------------------------------------------------------------------------------
@@ -828,7 +833,7 @@ fn gen_program(rng: &mut Rng, max_cap: usize) -> Vec<String> {
     let mut m = Machine::new();
     let mut scratch = Exec::new();
     let mut lines = vec![];
-    let mut push = |m: &mut Machine, lines: &mut Vec<String>, l: String, scratch: &mut Exec| {
+    let push = |m: &mut Machine, lines: &mut Vec<String>, l: String, scratch: &mut Exec| {
         m.apply(&l, scratch);
         lines.push(l);
     };
@@ -951,6 +956,8 @@ fn gen_exhaustive(cases: &mut Vec<Case>, max_cap: usize) {
 fn generate(tier: &str, rng: &mut Rng) -> Vec<Case> {
     let thorough = tier == "thorough";
     let mut cases = vec![];
+    // the generator runs the real code to pick in-range parameters; hostile picks panic (caught)
+    std::panic::set_hook(Box::new(|_| {}));
     gen_exhaustive(&mut cases, if thorough { 5 } else { 3 });
     let n = if thorough { 60_000 } else { 2_500 };
     for i in 0..n {
